@@ -20,7 +20,7 @@ RULE = ("three families. (1) IDMan scripts: every sequence of length <= L (L=4 q
         "map; entity, brush, face, group, visgroup) / drop a reference (=> __del__ when it was the last) / take a "
         "reference to a child, vmf.entities[i], vmf.brushes[i], vmf.spawn / nodeid set, del, pop / EntityGroup() / "
         "VisGroup() / fixup set, del / VMF.parse of a generated document with colliding, missing, zero and negative ids "
-        "(preserve_ids=False) / a Solid constructor that raises after the desired id was stored (any desired id); desired ids drawn from {-1, 0, negatives, 1..8, 100, 2**40} "
+        "(preserve_ids=False) / a Solid constructor that raises after the desired id was stored but before registration, Entity / Side constructors that raise after registration (any desired id); desired ids drawn from {-1, 0, negatives, 1..8, 100, 2**40} "
         "so that collisions are frequent. After EVERY step the used set of all six managers of every map and the ids / "
         "nodeid / fixup table of every object reachable from the maps and from the caller's variables are compared "
         "exactly with the model. A history is non-trivial when it releases at least one id and allocates after that; "
@@ -195,7 +195,7 @@ def gen_history(rng, length, profile='mixed', nonpos_fix=True, failsolid=True):
                 continue
             ops.append(['parse', gen_doc(rng, nonpos_fix)]); nmaps += 1
         elif name == 'failsolid':
-            ops.append(['failsolid', m, _des(rng)])
+            ops.append([rng.choice(['failsolid', 'failsolid', 'failent', 'failside']), m, _des(rng)])
     return ops
 
 
